@@ -823,7 +823,7 @@ wait:
 	}
 	if deadlock {
 		// stuck goroutines cannot be stopped: report and let the parent restart the process
-		if fh, err := os.OpenFile("c12.deadlocks", os.O_APPEND|os.O_CREATE|os.O_WRONLY, 0644); err == nil {
+		if fh, err := os.OpenFile("c12.deadlocks", os.O_APPEND|os.O_CREATE|os.O_WRONLY, 0644); err == nil && mode != "J" {
 			fmt.Fprintln(fh, payload)
 			fh.Close()
 		}
@@ -1123,17 +1123,14 @@ func init() {
 			emit("C", 16, 120, "an(bn())|bn(cn())|cn()")
 			emit("C", 8, 200, "bn()|bn()")
 			g.Count("cold start")
-			// debugger clients: concurrent `inject` commands are independent threads. (Not run while
-			// InjectValue evaluates with a literal thread id — see the fact literalTids and
-			// fixes/C12-inject-own-thread-id.patch — every such case shows the defect.)
-			if lt, err := c12LiteralTids(); err == nil && len(lt) == 0 {
-				for _, n := range []int{2, 8, 16} {
-					emit("J", n, 6, "an(an())ae()|bn()ar(cn())")
-					emit("J", n, 8, "an()")
-					g.Count("concurrent debugger injections")
-				}
-			} else {
-				g.Count("concurrent debugger injections NOT RUN: literal thread id in the tree")
+			// debugger clients: concurrent `inject` commands are independent threads and must exclude
+			// each other in the blocks of the functions they call (while InjectValue evaluates with
+			// the literal thread id 999 — fact literalTids — these cases show the known finding
+			// inject-shares-thread-999)
+			for _, n := range []int{2, 8, 16} {
+				emit("J", n, 6, "an(an())ae()|bn()ar(cn())")
+				emit("J", n, 8, "an()")
+				g.Count("concurrent debugger injections")
 			}
 			// an error / a Go panic that ENDS the thread while it holds the lock (nested too)
 			for _, mode := range []string{"D", "S", "M", "L"} {
